@@ -1,19 +1,82 @@
 (* Properties/C19.v — Event feeds deliver every value exactly once to every live subscriber.
-   Statements over the LTS of aqua/event/feed.go (Feed/FeedLTS.v); `reachable st`
-   means `exists tr, run init tr = Some st`.  Only statements closed by `exact`. *)
+   Statements over the LTS of aqua/event/feed.go (Feed/FeedLTS.v): any number of Send calls (sid;
+   the value sent is the sid), subscriber channels (chan) and unsubscribers, every interleaving.
+   `reachable st` is `exists tr, run init tr = Some st`; `log st` is the ghost list of deliveries
+   (send, channel), newest first; `count_log s c` counts the deliveries of send s to channel c.
+   Only statements closed by `exact`. *)
 From Coq Require Import List.
-From AQ Require Import Feed.FeedLTS Feed.FeedProofs.
+From AQ Require Import Feed.FeedLTS Feed.FeedProofs Feed.FeedInvA Feed.FeedInvB Feed.FeedExact Feed.FeedOrder Feed.FeedRecv Feed.FeedStuck.
 Import ListNotations.
 
-(* nsent_counts: the value returned by Send is the number of deliveries that Send made
-   (count_snd s = number of entries (s, _) of the ghost delivery log) *)
+(* exactly_once: on every path of the LTS, a Send that has completed (put the sendLock token back;
+   this precedes its return) has delivered its value exactly once to every channel that was
+   subscribed before Send was called and on which Unsubscribe was not called before the Send completed *)
+Theorem C19_exactly_once : forall t1 c cp t2 s t3 t4 st,
+  run init (t1 ++ LSubscribe c cp :: t2 ++ LSendCall s :: t3 ++ LSendUnlock s :: t4) = Some st ->
+  ~ In (LUnsubCall c) (t2 ++ t3) ->
+  count_log s c (log st) = 1.
+Proof. exact exactly_once. Qed.
+Print Assumptions C19_exactly_once.
+
+(* ... and at most once to any channel whatsoever (in particular those unsubscribing meanwhile) *)
+Theorem C19_at_most_once : forall st s c, reachable st -> count_log s c (log st) <= 1.
+Proof. exact at_most_once. Qed.
+Print Assumptions C19_at_most_once.
+
+(* nsent_counts: the value returned by Send is the number of deliveries that Send made *)
 Theorem C19_nsent_counts : forall st s n st', reachable st -> step st (LSendRet s n) = Some st' ->
   n = count_snd s (log st') /\ log st' = log st.
 Proof. exact nsent_counts. Qed.
 Print Assumptions C19_nsent_counts.
 
-(* sendLock is a lock: at most one Send (pc between `<-f.sendLock` and `f.sendLock <- struct{}{}`)
-   or one remove holds the token, so f.sendCases and `cases` are only ever touched by one goroutine *)
+(* no_delivery_after_unsubscribe_returned: after Unsubscribe on c has returned, no TrySend and no
+   Select of any Send delivers to c *)
+Theorem C19_no_delivery_after_unsubscribe_returned : forall t1 c t2 st s,
+  run init (t1 ++ LUnsubRet c :: t2) = Some st ->
+  ~ In (LTryOk s c) t2 /\ ~ In (LSelSent s c) t2.
+Proof. exact no_delivery_after_unsubscribe_returned. Qed.
+Print Assumptions C19_no_delivery_after_unsubscribe_returned.
+
+(* common_order: if a channel got a before b, Send a acquired sendLock before Send b
+   (rank st s = index of s's acquisition of sendLock) ... *)
+Theorem C19_common_order_rank : forall st a b c l1 l2 l3, reachable st ->
+  log st = l1 ++ (b, c) :: l2 ++ (a, c) :: l3 -> rank st a < rank st b.
+Proof. exact common_order_rank. Qed.
+Print Assumptions C19_common_order_rank.
+
+(* ... hence no two channels get two sends in different orders *)
+Theorem C19_common_order : forall st a b c1 c2 l1 l2 l3 m1 m2 m3, reachable st ->
+  log st = l1 ++ (b, c1) :: l2 ++ (a, c1) :: l3 ->
+  log st = m1 ++ (a, c2) :: m2 ++ (b, c2) :: m3 -> False.
+Proof. exact common_order. Qed.
+Print Assumptions C19_common_order.
+
+(* what a subscriber has received (c_recvd, newest first) followed by what is still in its channel is
+   exactly the sequence of deliveries to that channel (chan_log, oldest first): nothing lost, duplicated
+   or reordered between delivery and receipt *)
+Theorem C19_received_is_delivered : forall st c, reachable st ->
+  rev (c_recvd (chs st c)) ++ c_buf (chs st c) = chan_log st c.
+Proof. exact received_is_delivered. Qed.
+Print Assumptions C19_received_is_delivered.
+
+(* sendcases_consistent: the slice manipulations on f.sendCases and its alias `cases` (append of the
+   inbox, deactivate = swap + shrink, delete = shift, `cases = f.sendCases[:len(cases)-1]`) never panic,
+   never lose or duplicate a case: inbox ++ sendCases has no duplicates and is exactly the set of channels
+   subscribed and not yet removed; `cases` = sendCases[:k] are exactly the channels the running Send has
+   not served yet and sendCases[k:] exactly those it has served *)
+Theorem C19_sendcases_consistent : forall st, reachable st ->
+  panicked st = false /\
+  NoDup (inbox st ++ arr st) /\
+  (forall c, In c (inbox st ++ arr st) <-> (c_subd (chs st c) = true /\ removed (rem st c) = false)) /\
+  (forall s, active (s_pc (sndr st s)) = true ->
+     s_k (sndr st s) <= length (arr st) /\
+     forall c, (In c (firstn (s_k (sndr st s)) (arr st)) -> count_log s c (log st) = 0) /\
+               (In c (skipn (s_k (sndr st s)) (arr st)) -> count_log s c (log st) = 1)).
+Proof. exact sendcases_consistent. Qed.
+Print Assumptions C19_sendcases_consistent.
+
+(* sendLock is a lock: at most one Send (between `<-f.sendLock` and `f.sendLock <- struct{}{}`) or one
+   remove holds the token *)
 Theorem C19_sendlock_exclusive : forall st, reachable st ->
   (forall s1 s2, holding (s_pc (sndr st s1)) = true -> holding (s_pc (sndr st s2)) = true -> s1 = s2) /\
   (forall c1 c2, rem st c1 = RLocked -> rem st c2 = RLocked -> c1 = c2) /\
@@ -21,32 +84,25 @@ Theorem C19_sendlock_exclusive : forall st, reachable st ->
 Proof. exact sendlock_exclusive. Qed.
 Print Assumptions C19_sendlock_exclusive.
 
-(* no_stuck_state at full strength would say: in every reachable state in which some call is
-   under way and every subscriber can accept a value, some internal step is enabled.
-   The code refutes it: Send with a value of the wrong type panics while holding f.mu
-   (feed.go, Send: `f.sendLock <- struct{}{}; panic(...)` without f.mu.Unlock()), after which
-   an Unsubscribe that is under way can never take its next step, nor can any Subscribe. *)
-Theorem C19_no_stuck_state_refuted : exists tr st c,
-  run init tr = Some st /\ rem st c = RCalled /\
-  (forall c', can_accept (chs st c') = true \/ c_subd (chs st c') = false) /\
-  enabled st (LRemoveInbox c) = false /\ enabled st (LRemoveNotInbox c) = false /\
-  enabled st (LSubscribe 2 1) = false.
-Proof. exact mu_leak_refuted. Qed.
-Print Assumptions C19_no_stuck_state_refuted.
+(* no_stuck_state (deadlock freedom under receiver fairness): in every reachable state in which a Send or
+   an Unsubscribe is under way (`busy`) and every channel in sendCases can accept a value (buffer space or
+   a receiver waiting), some internal step (not a new call, not a receiver action) is enabled.
+   Holds at full strength since the fix "event.Feed.Send releases f.mu before panicking on a value of the
+   wrong type" (LSendBadType now leaves nothing locked). *)
+Theorem C19_no_stuck_state : forall st, reachable st -> busy st ->
+  (forall c, In c (arr st) -> can_accept (chs st c) = true) ->
+  exists l, internal l = true /\ enabled st l = true.
+Proof. exact no_stuck_state. Qed.
+Print Assumptions C19_no_stuck_state.
 
-(* ... and the leak is permanent *)
-Theorem C19_mu_leak_is_permanent : forall st l st', mu_leaked st = true -> step st l = Some st' -> mu_leaked st' = true.
-Proof. exact mu_leaked_forever. Qed.
-Print Assumptions C19_mu_leak_is_permanent.
-
-(* non-vacuity: two senders, an unbuffered and a buffered subscriber, an unsubscription handed
-   to the running Send while it is blocked in Select on that very channel: a path of the LTS,
-   with 1 delivery by send 1 (to channel 2), and Send returning 1. *)
+(* non-vacuity: two senders, an unbuffered and a buffered subscriber, an unsubscription handed to the
+   running Send while it is blocked in Select on that very channel: a path of the LTS, with one delivery by
+   each send (to channel 2), matching the premises of C19_exactly_once for (s, c) = (1, 2) and (2, 2). *)
 Example C19_example :
-  exists st, run init [LSubscribe 1 0; LSubscribe 2 1; LSendCall 1; LSendCall 2; LSendLock 1; LSendMerge 1;
-                       LTryFail 1 1; LTryOk 1 2; LSelectEnter 1; LUnsubCall 1; LRemoveNotInbox 1;
-                       LSelRemove 1 1; LRemoveHandoff 1; LUnsubRet 1; LSendUnlock 1; LSendRet 1 1;
+  exists st, run init ([] ++ LSubscribe 2 1 :: [LSubscribe 1 0] ++ LSendCall 1 :: [LSendCall 2; LSendLock 1; LSendMerge 1;
+                       LTryFail 1 2; LTryFail 1 1; LSelectEnter 1; LUnsubCall 1; LRemoveNotInbox 1;
+                       LSelRemove 1 1; LRemoveHandoff 1; LUnsubRet 1; LTryOk 1 2] ++ LSendUnlock 1 :: [LSendRet 1 1;
                        LSendLock 2; LSendMerge 2; LTryFail 2 2; LSelectEnter 2; LRecvBegin 2; LRecvEnd 2 1;
-                       LSelSent 2 2; LSendUnlock 2; LSendRet 2 1] = Some st
-             /\ log st = [(2, 2); (1, 2)] /\ arr st = [2] /\ panicked st = false.
+                       LSelSent 2 2; LSendUnlock 2; LSendRet 2 1]) = Some st
+             /\ log st = [(2, 2); (1, 2)] /\ arr st = [2] /\ panicked st = false /\ rank st 1 = 1 /\ rank st 2 = 2.
 Proof. eexists. vm_compute. repeat split; reflexivity. Qed.
